@@ -48,6 +48,8 @@ def eq(a, b, tol=NUM_TOL):
                 return False
             r = e if r is True else (r & e if not (e is True) else r)
         return r
+    if a is None or b is None:
+        return a is None and b is None
     if hasattr(a, "toarray"):
         a = a.toarray()
     if hasattr(b, "toarray"):
